@@ -16,6 +16,15 @@ RULE = ('formal: case = (table, backend, entry point in {get_minimal_generators_
         'against the spec for the content at that moment; arguments passed as list/tuple/set/frozenset/dict keys (by index '
         'also generator/iter/map); wide tables (9..11 attributes, up to 14 objects) with set/frozenset index collections; mv: interval tables on a small integer grid, intent = intention of an object '
         'subset, base objects = None / superset of the extent, optional base generator taken from the intent; '
+        'class H7 (both routines): every index / name argument also as a list with repetitions whose length equals the '
+        'dimension while its member set is a proper subset, as a permutation of the full range, unsorted, one longer / one '
+        'shorter than the dimension (formal: intent, base generator [permutations by index, repetitions by name], base '
+        'objects; mv: base objects, ps_to_iterate) - as far as the unchanged code answers them; class H4: query -> '
+        'hash-preserving edit (adler32-neutral name swaps / renames and adler32-colliding tables for FormalContext.hash_fixed; '
+        '-1 <-> -2, 1 <-> 2**61 float cells for hash(MVContext), 131 <-> 212 cells for MVContext.hash_fixed; ps.data = , '
+        'pattern_structures[j] = , pattern_structures = , in-place edit of object_names) -> the same query with the SAME '
+        'argument objects and with equal fresh ones; class H8: 64/65/129 objects / attributes / pattern structures with the '
+        'last index deciding the answer; '
         'non-trivial = mixed table and closed non-empty intent with a base generator or a proper base object subset '
         '(mv: extent neither empty nor everything); distinct = distinct (table, backend, mode, intent, bg, bo)')
 EXHAUSTIVE = {
@@ -27,28 +36,54 @@ EXHAUSTIVE = {
              '(3 backends when n*m<=4, else rotating); mv histories (psdata/permps/objs) on all 27 one-column 3-row point tables; '
              'mv: all one-column tables with <=3 rows over grid {0,1,2} (points) and all two-column point tables with 2..3 rows '
              '(grids {0,1} x {0,1,2}), all object-subset intents, base objects None / every ascending superset of the extent, '
-             'base generator none / each projection-1 generator of the intent',
+             'base generator none / each projection-1 generator of the intent; '
+             'H7: all tables n*m<=6 x every (intent, bg inside intent) x every H7 base-object list of the dimension (all lists of '
+             'length n that are not the identity, non-decreasing lists of length n+1, repeated lists of length n-1); mv H7: all 27 '
+             'one-column 3-row point tables x every object-subset intent x every base member set containing the extent; '
+             'mv H4: all 3-row columns over each colliding value pair {a,b} plus one neutral value x flips of all / the first / '
+             'the last collidable cell',
     'thorough': 'the quick scope plus all tables with n*m<=12, n,m<=4 (3x4 and 4x3 with one backend per table, rotating); '
                 'mv: one-column tables with <=4 rows over grid {0,1,2}, <=3 rows incl. proper intervals, two-column 2-row interval tables'}
 EXPLANATION = ('formal contexts: the result set is pinned uniquely (theorem Fca.C18.min_gens_exact: model = set of minimum '
                'generators), so implementation != brute-force spec is a property failure; many-valued contexts: the '
                'implementation\'s own generators are judged by the Lean checker `same extension as the intent inside the base '
                'objects` (theorem mv_gens_same_extension proves it of the model); model/implementation set equality is '
-               'checked as correspondence')
-ASSUMPTIONS = ['index arguments are lists of valid non-negative indexes; the base generator is duplicate-free',
+               'checked as correspondence.  Lists with repetitions / permutations (class H7) are judged by the same oracles: the '
+               'spec reads intent, base generator and base objects as sets (is_min_gen_args_as_sets, min_gens_args_as_sets, '
+               'min_gens_names_args_as_sets; many-valued: mv_same_extension_as_set, mv_gens_same_extension_as_set), so the '
+               'answer for the member set is the answer for every spelling of it.  Tables with more than 12 attributes (class '
+               'H8) are judged against the model alone, which min_gens_exact proves to be the set of minimum generators.  '
+               'Histories (classes H1/H4): every query is judged against the spec for the content at that moment')
+ASSUMPTIONS = ['index arguments are collections of valid non-negative indexes (repetitions and any order allowed for intent and '
+               'base objects); the base generator is duplicate-free when given by index',
                'object/attribute names pairwise distinct',
-               'MV: interval columns only, use_indexes=True, ps_to_iterate=None, projection_to_start=1, integer-valued data '
-               '(floats exact), base objects ascending and containing the extension of the intent (otherwise the routine '
-               'does not terminate - see the report), base generator = projection-1 generators of the intent']
+               'MV: interval columns only, projection_to_start=1, integer-valued data (floats exact), base generator = '
+               'projection-1 generators of the intent; only queries inside the TERMINATING scope are generated: the list the '
+               'routine iterates (numpy branch: the caller\'s list; branch without numpy: iteration order of frozenset(list); by '
+               'name: ascending duplicate-free indexes) restricted to the intent over ps_to_iterate must equal the extension of '
+               'the intent as a LIST - otherwise the while loop never ends (e.g. base objects listing the extension out of '
+               'order or twice on the numpy branch; without numpy a base set such as {1, 8} whose set order is 8, 1)',
+               'FormalContext has no content edit that keeps Python hash(K) (cells are bool, str hashes are salted): class H4 '
+               'for formal contexts is the adler32 (hash_fixed) family only']
 TRUSTED = ['itertools.combinations order, sorted(), set semantics of tuples/frozendict (modelled)',
            'numpy array == list comparison inside MVContext.get_minimal_generators is not reached (extension_i returns lists)']
 CHUNK = 3000
 REQUESTS_NEED_IMPL = True
 MV_FUEL = 4
-MV_TIMEOUT_S = 5.0
+WIDE_M = 12
+MV_TIMEOUT_S = 5.0      # CPU seconds (ITIMER_VIRTUAL): independent of the load of the machine
 
 OBJ = [f'g{i}' for i in range(16)]
 ATT = list('abcdefghijklmnop')
+
+
+def _objn(n):
+    return [f'g{i}' for i in range(n)]
+
+
+def _attn(m):
+    return [ATT[j] if j < 16 else f'm{j}' for j in range(m)]
+
 
 # containers a caller may legally pass (H2).  By index every argument goes through set()/list() once, so one-shot
 # iterables are accepted; by name the arguments are used in repeated membership tests (documented type: List), so only
@@ -259,6 +294,19 @@ def gen(tier, seed, boost=False):
         c['stream'] = 'corpus'
         yield c
     thorough = tier == 'thorough' or boost
+    quick = not thorough
+    # 0b. the small DIRECTED streams of classes H4 / H7 / H8 come first (seconds), so that they are reached whatever the
+    # load of the machine and the time budget: fingerprint-preserving edits and the same argument objects again,
+    # random H7 spellings of all three arguments, 64 / 65 / 129 objects, attributes, pattern structures
+    for k in range(60 if quick else 600):
+        yield from _h7_random(rng, G.random_table(rng, 5, 5, nmin=3, mmin=2), 'h7-random')
+    for k, rows in enumerate(G.tables_upto(3, 3, cells=6)):
+        yield from _h4_formal(rows, BACKENDS[k % 3], 'h4-hist', rng, sample=None if len(rows) * len(rows[0]) <= 4 else 6)
+    for k in range(25 if quick else 300):
+        yield from _h4_formal(G.random_table(rng, 4, 3, nmin=3, mmin=3), BACKENDS[k % 3], 'h4-hist-random', rng, sample=4)
+    yield from _h8_formal(rng, 'h8', quick)
+    yield from _mv_h4_cases('mv-h4', rng, quick)
+    yield from (c for c in _mv_h8_cases('mv-h8', rng, quick) if c is not None)
     # 1. exhaustive small scope (formal contexts)
     for rows in G.tables_upto(3, 3):
         yield from _formal_exhaustive(rows, 'exhaustive', BACKENDS)
@@ -282,6 +330,9 @@ def gen(tier, seed, boost=False):
     # 1c. shape extremes (H3)
     for _ in range(50 if tier == 'quick' else 600):
         yield from _wide_cases(rng, 'wide')
+    # 1d. class H7, exhaustive part
+    for k, rows in enumerate(G.tables_upto(3, 3, cells=6)):
+        yield from _h7_formal(rows, BACKENDS[k % 3], 'h7-exhaustive', rng)
     # 2. exhaustive small scope (interval many-valued contexts)
     for nrows in (1, 2, 3):
         for col in _grid_columns(nrows, (0, 1, 2), intervals=False):
@@ -297,6 +348,14 @@ def gen(tier, seed, boost=False):
         cols = [[(lambda a: [a, a if rng.random() < 0.6 else rng.randint(a, 5)])(rng.randint(0, 4)) for _g in range(n)]
                 for _j in range(k)]
         yield from _mvhist_cases(cols, 'mvhist-random', rng)
+    # 2b. many-valued: classes H7 (base objects / ps_to_iterate), H4 (fingerprint-preserving cell edits), H8
+    for col in _grid_columns(3, (0, 1, 2), intervals=False):
+        yield from (c for c in _mv_h7_cases([col], 'mv-h7', rng) if c is not None)
+    for _ in range(25 if quick else 500):
+        n, k = rng.randint(3, 5), rng.randint(1, 3)
+        cols = [[(lambda a: [a, a if rng.random() < 0.7 else rng.randint(a, 4)])(rng.randint(0, 3)) for _g in range(n)]
+                for _j in range(k)]
+        yield from (c for c in _mv_h7_cases(cols, 'mv-h7-random', rng, sample=2) if c is not None)
     if thorough:
         for k, rows in enumerate(G.tables_upto(4, 4, cells=12)):
             n, m = len(rows), len(rows[0])
@@ -346,12 +405,23 @@ def _names(xs, names, junk=()):
     return None if xs is None else [names[i] for i in xs] + list(junk)
 
 
+FC_TIMEOUT_S = 4.0      # CPU seconds; only armed for tables with >= 13 attributes (the search is exponential in m)
+
+
 def _impl_fc(c):
     K = make_context(c['rows'], c['be'], c.get('objs'), c.get('attrs'))
     intent, bg, bo = list(c['intent']), c['bg'], c['bo']
     bg = None if bg is None else list(bg)
     bo = None if bo is None else list(bo)
     ci, cg, co = c.get('cont') or ('list', 'list', 'list')
+    guard = len(c['rows'][0]) > WIDE_M
+    if guard:       # a level-wise search that misses the generators of level <= 2 would run for years on 65 attributes
+        import signal
+
+        def _alarm(signum, frame):
+            raise _Timeout()
+        prev = signal.signal(signal.SIGVTALRM, _alarm)
+        signal.setitimer(signal.ITIMER_VIRTUAL, FC_TIMEOUT_S)
     try:
         if c['mode'] == 'i':
             r = K.get_minimal_generators_i(_wrap(intent, ci), _wrap(bg, cg), _wrap(bo, co))
@@ -361,8 +431,14 @@ def _impl_fc(c):
             junk = c.get('junk', ())
             r = K.get_minimal_generators(_wrap(_names(intent, c['attrs'], junk), ci), _wrap(_names(bg, c['attrs'], junk), cg),
                                          _wrap(_names(bo, c['objs'], junk), co), use_indexes=False)
+    except _Timeout:
+        return {'err': 'Timeout'}
     except Exception as e:
         return {'err': exc_name(e)}
+    finally:
+        if guard:
+            signal.setitimer(signal.ITIMER_VIRTUAL, 0)
+            signal.signal(signal.SIGVTALRM, prev)
     return _canon_fc(r, c['mode'])
 
 
@@ -402,13 +478,17 @@ def requests(c, io=None):
         return [r for k, pc in enumerate(qs) for r in _requests_mv(pc, outs[k] if k < len(outs) else {})]
     n = len(c['rows'])
     base = _table_req(c)
+    # more than 12 attributes: no brute force over the 2^m subsets; the model alone is the oracle (Fca.C18.min_gens_exact
+    # proves its list to be exactly the minimum generators, each once)
+    op_i = 'C18.im' if len(c['rows'][0]) > WIDE_M else 'C18.i'
     if c['mode'] in ('i', 'gi'):
         # bo = None: the driver's spec takes all objects (what the property asks for when no base set is supplied)
-        return [dict(base, op='C18.i', intent=c['intent'], bg=c['bg'], bo=c['bo'])]
+        return [dict(base, op=op_i, intent=c['intent'], bg=c['bg'], bo=c['bo'])]
     junk = c.get('junk', ())
+    bgi = c['bg'] if c['bg'] is None else sorted(set(c['bg']))     # by name a repeated name denotes one attribute
     return [dict(base, op='C18.n', objs=c['objs'], attrs=c['attrs'], intent=_names(c['intent'], c['attrs'], junk),
                  bg=_names(c['bg'], c['attrs'], junk), bo=_names(c['bo'], c['objs'], junk)),
-            dict(base, op='C18.i', intent=c['intent'], bg=c['bg'], bo=c['bo'] if c['bo'] is not None else list(range(n)))]
+            dict(base, op=op_i, intent=c['intent'], bg=bgi, bo=c['bo'] if c['bo'] is not None else list(range(n)))]
 
 
 def _judge_fc(c, io, rep):
@@ -420,7 +500,7 @@ def _judge_fc(c, io, rep):
         if not r['nodup']:
             return dict(ok=False, kind='harness', detail='model result has duplicates (contradicts min_gens_exact)')
         want_model = r['model']
-        spec = r['spec']
+        spec = r['spec'] if 'spec' in r else r['model'].get('ok')
         if not malformed and want_model != {'ok': spec}:
             return dict(ok=False, kind='harness', detail=f'model {want_model} != spec {spec} (contradicts min_gens_exact)')
         if malformed:
@@ -442,7 +522,7 @@ def _judge_fc(c, io, rep):
             return dict(ok=True)
         return dict(ok=False, kind='correspondence', detail=f'duplicated names: implementation {io}, model {rn["ok"]}')
     if True:
-        img = sorted([[attrs[i] for i in t] for t in ri['spec']])
+        img = sorted([[attrs[i] for i in t] for t in (ri['spec'] if 'spec' in ri else ri['model']['ok'])])
         if rn['ok'] != img:
             return dict(ok=False, kind='harness',
                         detail=f'by-name model {rn["ok"]} != names of the spec {img} (contradicts min_gens_names_agree)')
@@ -465,7 +545,8 @@ def nontrivial(c):
     if c['kind'] == 'hist':
         return G.is_mixed(c['rows']) and sum(1 for st in c['steps'] if st['op'] == 'q') >= 2
     if c['kind'] == 'mvhist':
-        return sum(1 for st in c['steps'] if st['op'] == 'q') >= 2
+        nq = sum(1 for st in c['steps'] if st['op'] == 'q')
+        return nq >= 2 or (nq == 1 and c['stream'].startswith(('mv-h7', 'mv-h8')))
     if c['kind'] == 'fc':
         return (G.is_mixed(c['rows']) and len(c['intent']) > 0 and _is_closed(c['rows'], c['intent'])
                 and (bool(c['bg']) or (c['bo'] is not None and len(c['bo']) < len(c['rows']))))
@@ -488,17 +569,49 @@ def branch(c, io, rep):
     if c['kind'] in ('hist', 'mvhist'):
         ops = sorted({st['op'] if st['op'] != 'q' else 'q:' + st['mode'] for st in c['steps']})
         conts = sorted({'cont:' + k for st in c['steps'] if st['op'] == 'q' for k in (st.get('cont') or [])})
-        return [c['stream']] + [c['kind'] + ':' + o for o in ops] + conts
+        extra = []
+        if any(st.get('same') for st in c['steps']):
+            extra.append('same-argument-objects')
+        for st in c['steps']:
+            if st.get('h4'):
+                extra.append(f"h4:{c['kind']}:{st['op']}:{st['h4']}")
+            if st['op'] == 'q' and st.get('psit') is not None:
+                extra.append('mv:psit-given')
+            if st['op'] == 'q' and c['kind'] == 'mvhist' and st['bo'] is not None and len(set(map(str, st['bo']))) < len(st['bo']):
+                extra.append('mv:bo-repetitions' + ('-len-n' if len(st['bo']) == len(c['cols'][0]) else ''))
+        for fl in (io.get('h4') or []):      # did the library's own fingerprints survive the edit?
+            if isinstance(fl, list):
+                extra.append('h4:lib-hash-' + ('kept' if fl[0] else 'changed'))
+                extra.append('h4:lib-hash_fixed-' + ('kept' if fl[1] else 'changed'))
+            else:
+                extra.append('h4:lib-hash_fixed-' + ('kept' if fl else 'changed'))
+        return [c['stream']] + [c['kind'] + ':' + o for o in ops] + conts + sorted(set(extra))
     if c['kind'] == 'fc':
         closed = _is_closed(c['rows'], c['intent'])
         inside = c['bg'] is None or set(c['bg']) <= set(c['intent'])
         size = 'err' if 'err' in io else ('empty' if not io.get('ok') else f'level{len(io["ok"][0])}x{min(len(io["ok"]), 3)}')
         return [c['stream'], f"fc:{c['be']}:{c['mode']}", 'intent-closed' if closed else 'intent-not-closed',
                 'bg-inside' if inside else 'bg-outside', 'bo-none' if c['bo'] is None else 'bo-given', 'fc:' + size] + \
-            ['cont:' + k for k in sorted(set(c.get('cont') or []))]
+            ['cont:' + k for k in sorted(set(c.get('cont') or []))] + _h7_tags(c)
     return [c['stream'], 'mv:np' if c['np'] else 'mv:nonp', 'mv:bg' if c['bgspec'] else 'mv:nobg',
             'mv:bo-none' if c['bo'] is None else 'mv:bo-given',
             'mv:err:' + io['err'] if 'err' in io else f'mv:gens{min(len(io.get("ok", [])), 4)}']
+
+
+def _h7_tags(c):
+    n, m = len(c['rows']), len(c['rows'][0])
+    out = []
+    for nm, xs, dim in (('bo', c['bo'], n), ('intent', c['intent'], m), ('bg', c['bg'], m)):
+        if not xs:
+            continue
+        xs = list(xs)
+        if len(set(xs)) < len(xs):
+            out.append(f'h7:{nm}-repetitions' + ('-len-eq-dim' if len(xs) == dim else '-len-gt-dim' if len(xs) > dim else ''))
+        elif len(xs) == dim and xs != sorted(xs):
+            out.append(f'h7:{nm}-full-unsorted')
+    if n >= 64 or m >= 64:
+        out.append(f'h8:{"n" if n >= 64 else ""}{"m" if m >= 64 else ""}>=64')
+    return out
 
 
 def signature(c, io, rep, v):
@@ -526,10 +639,18 @@ def shrink(c):
     if c['kind'] == 'fc':
         if c['mode'] == 'n':
             return
+        if len(c['rows']) >= 64 or len(c['rows'][0]) > WIDE_M:
+            # directed large shapes: the size is the point (and a wrong search can take seconds per case); only plain
+            # containers and a shorter base generator are tried
+            if c.get('cont') and any(k != 'list' for k in c['cont']):
+                yield dict(c, cont=['list', 'list', 'list'])
+            if c['bg']:
+                yield dict(c, bg=c['bg'][1:])
+            return
         for s in G.shrink_table_case(c, row_keys=('bo',), col_keys=('intent', 'bg')):
             if 'objs' in s:   # keep the name lists as long as the shrunk table
-                s['objs'] = OBJ[:len(s['rows'])]
-                s['attrs'] = ATT[:len(s['rows'][0])]
+                s['objs'] = _objn(len(s['rows']))
+                s['attrs'] = _attn(len(s['rows'][0]))
             yield s
         return
     cols = c['cols']
@@ -603,8 +724,8 @@ def _impl_mv(c):
     def _alarm(signum, frame):
         raise _Timeout()
     import signal
-    prev = signal.signal(signal.SIGALRM, _alarm)
-    signal.setitimer(signal.ITIMER_REAL, MV_TIMEOUT_S)   # the routine's `while` loop has no exit when nothing is found
+    prev = signal.signal(signal.SIGVTALRM, _alarm)
+    signal.setitimer(signal.ITIMER_VIRTUAL, MV_TIMEOUT_S)   # the routine's `while` loop has no exit when nothing is found
     try:
         K = MVContext(data, pattern_types={nm: PS.IntervalPS for nm in names}, attribute_names=names)
         intent_i = {j: (None if d is None else (float(d[0]), float(d[1]))) for j, d in enumerate(intent)}
@@ -620,16 +741,16 @@ def _impl_mv(c):
     except Exception as e:
         return {'err': exc_name(e)}
     finally:
-        signal.setitimer(signal.ITIMER_REAL, 0)
-        signal.signal(signal.SIGALRM, prev)
+        signal.setitimer(signal.ITIMER_VIRTUAL, 0)
+        signal.signal(signal.SIGVTALRM, prev)
         LIB_INSTALLED['numpy'] = old
 
 
 def _requests_mv(c, io):
     intent, bg = _mv_intent_and_bg(c)
     bgj = [] if bg is None else [[j, _enc_descr(d)] for j, d in bg.items()]
-    return [dict(op='C18.mv', cols=c['cols'], n=len(c['cols'][0]), intent=intent, bg=bgj, bo=c['bo'], fuel=MV_FUEL,
-                 gens=io.get('ok', []))]
+    return [dict(op='C18.mv', cols=c['cols'], n=len(c['cols'][0]), intent=intent, bg=bgj, bo=c['bo'], psit=c.get('psit'),
+                 fuel=MV_FUEL, gens=io.get('ok', []))]
 
 
 def _judge_mv(c, io, rep):
@@ -696,15 +817,21 @@ def _impl_hist(c):
                       attribute_names=list(c['attrs']), backend=c['be'])
     slots = {'intent': [], 'bg': [], 'bo': []}
     outs, last = [], None
+    argobjs, h4 = {}, []
     for k, st in enumerate(c['steps']):
         op = st['op']
         try:
+            hf = K.hash_fixed() if st.get('h4') else None
             if op == 'attrs':
                 K.attribute_names = list(st['names'])
             elif op == 'objs':
                 K.object_names = list(st['names'])
             elif op == 'data':
                 K.data.data = [[bool(v) for v in r] for r in st['rows']]
+            if hf is not None:      # did the edit really keep the library's fingerprint?  (histogram only)
+                h4.append(bool(K.hash_fixed() == hf))
+            if op in ('attrs', 'objs', 'data'):
+                continue
             elif op == 'read':
                 _ = (K.T, hash(K), K.hash_fixed(), K.to_pandas() if st.get('pandas') else None)
             elif op == 'mutret':
@@ -714,8 +841,14 @@ def _impl_hist(c):
                     del last[1:]
             elif op == 'q':
                 ci, cg, co = st['cont']
-                args = (_wrap(st['intent'], ci, slots['intent']), _wrap(st['bg'], cg, slots['bg']),
-                        _wrap(st['bo'], co, slots['bo']))
+                akey = repr((st['intent'], st['bg'], st['bo'], st['cont']))
+                if st.get('same') and akey in argobjs:
+                    args = argobjs[akey]       # the very same argument objects as in the earlier equal query
+                else:
+                    args = (_wrap(st['intent'], ci, slots['intent']), _wrap(st['bg'], cg, slots['bg']),
+                            _wrap(st['bo'], co, slots['bo']))
+                    if all(kd in ('list', 'tuple', 'set', 'frozenset', 'dictkeys') for kd in st['cont']):
+                        argobjs[akey] = args
                 try:
                     if st['mode'] == 'i':
                         last = K.get_minimal_generators_i(*args)
@@ -727,7 +860,7 @@ def _impl_hist(c):
                     outs.append({'err': exc_name(e)})
         except Exception as e:
             return {'steperr': f'step {k} ({op}) raised {exc_name(e)}: {str(e)[:120]}', 'outs': outs}
-    return {'outs': outs}
+    return {'outs': outs, 'h4': h4}
 
 
 def _judge_hist(c, io, rep):
@@ -855,14 +988,35 @@ def _wide_cases(rng, stream):
 # ------------------------------------------------------------------ histories on ONE many-valued context (H1, H2)
 def _mvhist(stream, cols, steps, numpy_on=True):
     n = len(cols[0])
-    return dict(stream=stream, kind='mvhist', cols=cols, objs=OBJ[:n], psnames=[f'p{j}' for j in range(len(cols))],
+    return dict(stream=stream, kind='mvhist', cols=cols, objs=_objn(n), psnames=[f'p{j}' for j in range(len(cols))],
                 np=numpy_on, steps=steps)
 
 
-def _mvq(mode, intent, bo, bgspec=None, cont='list'):
-    """query step.  mode 'i': `intent` = list of descriptions per pattern-structure INDEX, bo = object indexes;
-    mode 'n': `intent` = {ps name: description}, bo = object NAMES, bgspec = [[ps name, side]]."""
-    return dict(op='q', mode=mode, intent=intent, bo=bo, bgspec=bgspec, cont=[cont])
+def _mvq(mode, intent, bo, bgspec=None, cont='list', psit=None, same=False):
+    """query step.  mode 'i': `intent` = list of descriptions per pattern-structure INDEX, bo = object indexes,
+    psit = pattern-structure indexes; mode 'n': `intent` = {ps name: description}, bo = object NAMES, bgspec = [[ps name,
+    side]], psit = pattern-structure names.  same=True: pass the very argument objects of the earlier equal query."""
+    d = dict(op='q', mode=mode, intent=intent, bo=bo, bgspec=bgspec, cont=[cont])
+    if psit is not None:
+        d['psit'] = psit
+    if same:
+        d['same'] = True
+    return d
+
+
+def _cell(x):
+    """a raw cell handed to IntervalPS (number, bool, [x], [lo, hi]) -> [lo, hi] as integers"""
+    if isinstance(x, (list, tuple)):
+        lo, hi = (x[0], x[0]) if len(x) == 1 else x
+    else:
+        lo = hi = x
+    if float(lo) != int(lo) or float(hi) != int(hi):
+        raise ValueError(f'non-integer cell {x!r}')
+    return [int(lo), int(hi)]
+
+
+def _raw(x):
+    return tuple(x) if isinstance(x, list) else x
 
 
 def _mvhist_states(c):
@@ -870,8 +1024,10 @@ def _mvhist_states(c):
     cols, psn, objs = [list(col) for col in c['cols']], list(c['psnames']), list(c['objs'])
     for st in c['steps']:
         op = st['op']
-        if op == 'psdata':
-            cols[st['j']] = [list(x) for x in st['col']]
+        if op in ('psdata', 'setps', 'newps'):
+            cols[st['j']] = [_cell(x) for x in st['col']]
+        elif op == 'swapobjs':
+            objs[st['a']], objs[st['b']] = objs[st['b']], objs[st['a']]
         elif op == 'permps':
             cols = [cols[p] for p in st['perm']]
             psn = [psn[p] for p in st['perm']]
@@ -888,19 +1044,55 @@ def _mvhist_queries(c):
             intent = [st['intent'].get(nm) for nm in psn]
             bo = None if st['bo'] is None else [g for g, nm in enumerate(objs) if nm in st['bo']]
             bgspec = None if not st['bgspec'] else [[psn.index(nm), side] for nm, side in st['bgspec'] if nm in psn]
+            psit = None if st.get('psit') is None else [psn.index(nm) for nm in st['psit']]
         else:
-            intent, bo, bgspec = st['intent'], st['bo'], st['bgspec']
+            intent, bo, bgspec, psit = st['intent'], st['bo'], st['bgspec'], st.get('psit')
+            if bo is not None and st['cont'][0] in ('set', 'frozenset'):
+                bo = list(_wrap(bo, st['cont'][0]))
+        # `bo` = the list the routine iterates: without numpy it wraps the base objects into a frozenset, whose
+        # iteration order (an explicit parameter of the model) is read off CPython here; the acceptance test of the
+        # Lean side reads the list as a set (Fca.C18.mv_same_extension_as_set)
+        if bo is not None and not c['np']:
+            bo = list(frozenset(bo))
         yield dict(stream=c['stream'], kind='mv', cols=cols, iobjs=[], intent=intent, bo=bo, bgspec=bgspec, np=c['np'],
-                   qmode=st['mode'])
+                   qmode=st['mode'], psit=psit)
 
 
-def _mv_terminates(cols, intent, bo):
-    """the routine is only known to return when the base objects are ascending and contain the extension of the intent"""
+def _mv_terminates(cols, intent, bo, psit=None, bgspec=None):
+    """the `while` loop ends (at projection 2 at the latest) exactly when the strongest description it can build - the
+    intent's own intervals of the pattern structures in ps_to_iterate, together with the base generator - selects,
+    from the list `bo` the routine iterates, the extension of the whole intent AS A LIST (order and repetitions count)"""
     n = len(cols[0])
-    if any(d is None for d in intent):
-        return True
-    ext = _mv_ext(cols, intent, range(n))
-    return bo is None or (bo == sorted(bo) and set(ext) <= set(bo))
+    ext_true = _mv_ext(cols, intent, range(n))
+    pss = set(range(len(cols)) if psit is None else psit)
+    if any(j >= len(cols) for j in pss):
+        return True                                  # KeyError, raised at once
+    if not pss:
+        return False
+    cons = [(j, intent[j]) for j in sorted(pss)]
+    for j, side in (bgspec or []):
+        d = intent[j]
+        cons.append((j, None if d is None else ([-math.inf, d[1]] if side == 'L' else [d[0], math.inf])))
+    got = [g for g in (range(n) if bo is None else bo)
+           if all(d is not None and d[0] <= cols[j][g][0] and cols[j][g][1] <= d[1] for j, d in cons)]
+    return got == ext_true
+
+
+def _mvhist_in_scope(c):
+    """all queries of the history are inside the terminating scope for the content at that time"""
+    return all(_mv_terminates(pc['cols'], pc['intent'], pc['bo'], pc.get('psit'), pc.get('bgspec'))
+               for pc in _mvhist_queries(c))
+
+
+def _retype(x, rng):
+    """the same cell in another Python spelling"""
+    lo, hi = x
+    if lo != hi:
+        return rng.choice(([lo, hi], [float(lo), hi], [lo, float(hi)]))
+    forms = [lo, float(lo), [lo], [lo, lo], [float(lo), lo]]
+    if lo in (0, 1):
+        forms.append(bool(lo))
+    return rng.choice(forms)
 
 
 def _impl_mvhist(c):
@@ -914,9 +1106,13 @@ def _impl_mvhist(c):
 
     def _alarm(signum, frame):
         raise _Timeout()
-    prev = signal.signal(signal.SIGALRM, _alarm)
+    prev = signal.signal(signal.SIGVTALRM, _alarm)
     outs = []
     slot = []
+    argobjs, h4 = {}, []
+
+    def mkps(j, col):
+        return PS.IntervalPS([_raw(x) for x in col], name=K.pattern_structures[j].name)
     try:
         K = MVContext([[tuple(col[g]) for col in cols] for g in range(n)],
                       pattern_types={nm: PS.IntervalPS for nm in c['psnames']}, attribute_names=list(c['psnames']),
@@ -925,30 +1121,51 @@ def _impl_mvhist(c):
         qk = 0
         for k, st in enumerate(c['steps']):
             op = st['op']
+            fp = (hash(K), K.hash_fixed()) if st.get('h4') else None
             if op == 'psdata':
-                K.pattern_structures[st['j']].data = [tuple(x) for x in st['col']]
+                K.pattern_structures[st['j']].data = [_raw(x) for x in st['col']]
+            elif op == 'setps':         # in-place edit of the list the getter returns
+                K.pattern_structures[st['j']] = mkps(st['j'], st['col'])
+            elif op == 'newps':         # a new list of new pattern structures through the setter
+                K.pattern_structures = [mkps(j, st['col']) if j == st['j'] else
+                                        PS.IntervalPS(list(ps.data), name=ps.name) for j, ps in enumerate(K.pattern_structures)]
             elif op == 'permps':
                 K.pattern_structures = [K.pattern_structures[p] for p in st['perm']]
             elif op == 'objs':
                 K.object_names = list(st['names'])
-            elif op == 'q':
+            elif op == 'swapobjs':      # in-place edit of the list the getter returns
+                L = K.object_names
+                L[st['a']], L[st['b']] = L[st['b']], L[st['a']]
+            elif op == 'read':
+                _ = (hash(K), K.hash_fixed(), K.data, len(K))
+            if fp is not None:          # which fingerprints did the edit really keep?  (histogram only)
+                h4.append([bool(hash(K) == fp[0]), bool(K.hash_fixed() == fp[1])])
+            if op == 'q':
                 pc = qs[qk]
                 qk += 1
                 psn = [ps.name for ps in K.pattern_structures]
                 fl = lambda d: None if d is None else (float(d[0]), float(d[1]))
                 _, bg = _mv_intent_and_bg(pc)          # index-keyed base generator of the current content
-                signal.setitimer(signal.ITIMER_REAL, MV_TIMEOUT_S)
-                try:
+                akey = repr((st['mode'], st['intent'], st['bo'], st['bgspec'], st['cont'], st.get('psit')))
+                if st.get('same') and akey in argobjs:
+                    a_int, a_bg, a_bo, a_ps = argobjs[akey]      # the very argument objects of the earlier equal query
+                else:
                     if st['mode'] == 'n':
-                        intent = {nm: fl(d) for nm, d in st['intent'].items()}
-                        bgn = None if bg is None else {psn[j]: d for j, d in bg.items()}
-                        r = K.get_minimal_generators(intent, base_generator=bgn,
-                                                     base_objects=_wrap(st['bo'], st['cont'][0], slot), use_indexes=False)
-                        r = [{psn.index(nm): d for nm, d in g.items()} for g in r]
+                        a_int = {nm: fl(d) for nm, d in st['intent'].items()}
+                        a_bg = None if bg is None else {psn[j]: d for j, d in bg.items()}
                     else:
-                        intent = {j: fl(d) for j, d in enumerate(st['intent'])}
-                        r = K.get_minimal_generators(intent, base_generator=bg,
-                                                     base_objects=_wrap(st['bo'], st['cont'][0], slot), use_indexes=True)
+                        a_int = {j: fl(d) for j, d in enumerate(st['intent'])}
+                        a_bg = bg
+                    a_bo = _wrap(st['bo'], st['cont'][0], slot)
+                    a_ps = None if st.get('psit') is None else list(st['psit'])
+                    if st['cont'][0] != 'samelist':
+                        argobjs[akey] = (a_int, a_bg, a_bo, a_ps)
+                signal.setitimer(signal.ITIMER_VIRTUAL, MV_TIMEOUT_S)
+                try:
+                    r = K.get_minimal_generators(a_int, base_generator=a_bg, base_objects=a_bo,
+                                                 use_indexes=st['mode'] != 'n', ps_to_iterate=a_ps)
+                    if st['mode'] == 'n':
+                        r = [{psn.index(nm): d for nm, d in g.items()} for g in r]
                     out = [sorted([[int(j), _enc_descr(d)] for j, d in g.items()], key=lambda p_: p_[0]) for g in r]
                     outs.append({'ok': sorted(out, key=repr), 'dups': len(set(map(repr, out))) != len(out)})
                 except _Timeout:
@@ -956,13 +1173,13 @@ def _impl_mvhist(c):
                 except Exception as e:
                     outs.append({'err': exc_name(e)})
                 finally:
-                    signal.setitimer(signal.ITIMER_REAL, 0)
-        return {'outs': outs}
+                    signal.setitimer(signal.ITIMER_VIRTUAL, 0)
+        return {'outs': outs, 'h4': h4}
     except Exception as e:
         return {'steperr': f'{exc_name(e)}: {str(e)[:120]}', 'outs': outs}
     finally:
-        signal.setitimer(signal.ITIMER_REAL, 0)
-        signal.signal(signal.SIGALRM, prev)
+        signal.setitimer(signal.ITIMER_VIRTUAL, 0)
+        signal.signal(signal.SIGVTALRM, prev)
         LIB_INSTALLED['numpy'] = old
 
 
@@ -989,9 +1206,7 @@ def _mvhist_cases(cols, stream, rng):
     def build(steps):
         c = _mvhist(stream, cols, steps, numpy_on=rng.random() < 0.7)
         # keep only histories all of whose queries are inside the terminating scope for the content at that time
-        if all(_mv_terminates(pc['cols'], pc['intent'], pc['bo']) for pc in _mvhist_queries(c)):
-            return c
-        return None
+        return c if _mvhist_in_scope(c) else None
     for iobjs in _subsets(n):
         if not iobjs:
             continue
@@ -1012,8 +1227,398 @@ def _mvhist_cases(cols, stream, rng):
         if k > 1:
             muts.append(dict(op='permps', perm=rng.sample(range(k), k)))
         muts.append(dict(op='objs', names=rng.sample(objs, n)))
+        # in-place edits of the containers the getters return; new pattern-structure objects; the same content spelled
+        # with other Python types (1 / 1.0 / True / (1, 1) / [1] are one cell)
+        r = rng.random()
+        if r < 0.25 and n > 1:
+            a, b = rng.sample(range(n), 2)
+            muts.append(dict(op='swapobjs', a=a, b=b))
+        elif r < 0.5:
+            muts.append(dict(op=rng.choice(('setps', 'newps')), j=j, col=rng.sample(cols[j], n)))
+        elif r < 0.75:
+            muts.append(dict(op='psdata', j=j, col=[_retype(x, rng) for x in cols[j]]))
         for mu in muts:
             for steps in ([qn, mu, qn], [qi, mu, qi], [qi, qn, mu, qn, qi]):
                 c = build(steps)
                 if c is not None:
                     yield c
+
+
+# ------------------------------------------------------------------ class H7: length is not fullness (formal contexts)
+def _h7_all(k):
+    """every H7 form of an index collection over range(k), small k: all lists of length k except the identity (repetitions
+    with a proper member subset, non-identity permutations), non-decreasing lists and `range + one repeat` of length k + 1,
+    lists of length k - 1 with a repetition"""
+    out, ident = [], list(range(k))
+    for t in itertools.product(range(k), repeat=k):
+        if list(t) != ident:
+            out.append(list(t))
+    for t in itertools.product(range(k), repeat=k + 1):
+        t = list(t)
+        if t == sorted(t) or t[:k] == ident or t[1:] == ident:
+            out.append(t)
+    if k >= 2:
+        for t in itertools.product(range(k), repeat=k - 1):
+            if len(set(t)) < len(t):
+                out.append(list(t))
+    return out
+
+
+def _h7_variants(S, k, rng):
+    """a few H7 spellings of the member set S inside a dimension of size k (a list with repetitions denotes its members)"""
+    S = sorted(set(S))
+    if not S:
+        return [[]]
+    out = []
+    if len(S) < k:                       # length == dimension, members a proper subset
+        pad = S + [rng.choice(S) for _ in range(k - len(S))]
+        out.append(sorted(pad))
+        out.append(rng.sample(pad, len(pad)))
+    else:                                # the full range, not sorted
+        out.append(S[::-1])
+        out.append(rng.sample(S, len(S)))
+    longer = S + [rng.choice(S) for _ in range(k + 1 - len(S))]     # one longer than the dimension
+    out.append(rng.sample(longer, len(longer)))
+    if len(S) >= 2:
+        out.append(S[::-1])
+    out.append(S + [S[0]])               # one repetition
+    if len(S) + 1 < k:
+        out.append([S[-1]] + S)
+    res = []
+    for x in out:
+        if x not in res and x != S:
+            res.append(x)
+    return res
+
+
+def _h7_formal(rows, be, stream, rng):
+    n, m = len(rows), len(rows[0])
+    bos = _h7_all(n)
+    objs, attrs = OBJ[:n], ATT[:m]
+    for intent in _subsets(m):
+        for bgpos in _subsets(len(intent)):
+            bg = [intent[i] for i in bgpos]
+            for bo in bos:
+                yield _fc(stream, be, rows, rng.choice(('i', 'gi')), intent, bg, bo)
+                if n * m <= 4 or rng.random() < 0.15:
+                    yield _fc(stream, be, rows, 'n', intent, bg if bg or rng.random() < 0.5 else None, bo, objs=objs, attrs=attrs)
+    # intent and base generator: repetitions up to / beyond the number of attributes, permutations, unsorted
+    for S in _subsets(m):
+        if not S:
+            continue
+        for il in _h7_variants(S, m, rng):
+            for G0 in ([], S[:1], S) if len(S) > 1 else ([], S):
+                for bo in (rng.choice((None, rng.choice(bos))),):
+                    # by index the base generator must be duplicate-free (it is concatenated into every result): permutations
+                    bgl = rng.sample(G0, len(G0))
+                    yield _fc(stream, be, rows, rng.choice(('i', 'gi')), il, bgl, bo)
+                    # by name a repeated name denotes one attribute
+                    for bgn in _h7_variants(G0, m, rng)[:2] if G0 else [[]]:
+                        yield _fc(stream, be, rows, 'n', il, bgn, bo, objs=objs, attrs=attrs)
+
+
+def _h7_random(rng, rows, stream):
+    n, m = len(rows), len(rows[0])
+    be = rng.choice(BACKENDS)
+    objs, attrs = _objn(n), _attn(m)
+    for _ in range(6):
+        boset = sorted(rng.sample(range(n), rng.randint(1, n)))
+        seedset = rng.sample(range(m), rng.randint(0, min(m, 3)))
+        intent = _closure(rows, seedset, boset) if rng.random() < 0.85 else sorted(seedset)
+        bgset = rng.sample(intent, rng.randint(0, min(2, len(intent))))
+        mode = rng.choice(('i', 'gi', 'n'))
+        bo = rng.choice(_h7_variants(boset, n, rng)) if rng.random() < 0.85 else boset
+        il = rng.choice(_h7_variants(intent, m, rng)) if intent and rng.random() < 0.6 else intent
+        if mode == 'n' and bgset and rng.random() < 0.5:
+            bgl = rng.choice(_h7_variants(bgset, m, rng))
+        else:
+            bgl = rng.sample(bgset, len(bgset))
+        yield _fc(stream, be, rows, mode, il, bgl, bo, objs=objs, attrs=attrs)
+
+
+# ------------------------------------------------------------------ class H8: 64 / 65 / 129 objects or attributes
+def _h8_formal(rng, stream, quick=True):
+    """directed large shapes; the LAST object / attribute (index 63, 64, 128) decides the answer, so a routine that drops
+    indexes >= 64 (bit masks) or switches algorithm by size is wrong here.  Intents are closures of <= 2 attributes inside
+    the base set, so the level-wise search ends at level <= 2 (a few thousand combinations)."""
+    shapes = [(65, 4), (64, 4), (4, 65), (4, 64), (65, 65), (129, 3), (3, 129)]
+    if not quick:
+        shapes += [(64, 64), (128, 4), (4, 128), (66, 5), (5, 66)]
+    for n, m in shapes:
+        for rep in range(2 if quick else 4):
+            d = rng.choice((0.6, 0.75, 0.9))
+            rows = [[int(rng.random() < d) for _ in range(m)] for _ in range(n)]
+            # the last object is the only one that has attribute 0 without attribute 1 (tall tables); the last attribute
+            # is shared by exactly the objects having attribute 0, except object 0 (wide tables)
+            for g in range(n):
+                if rows[g][0] and m > 1:
+                    rows[g][1] = 1
+            rows[n - 1][0] = 1
+            if m > 1:
+                rows[n - 1][1] = 0
+            if m > 4:
+                for g in range(n):
+                    rows[g][m - 1] = int(bool(rows[g][0]) and g != 0)
+            be = BACKENDS[(rep + n + m) % 3]
+            objs, attrs = _objn(n), _attn(m)
+            full = list(range(n))
+            bosets = [None, full[:-1], full[1:], sorted(rng.sample(full, n - 2))]
+            seeds = [[0], [m - 1], [0, m - 1], [1], rng.sample(range(m), min(m, 2)), [rng.randrange(m)]]
+            for seed in seeds:
+                for boset in bosets:
+                    intent = _closure(rows, seed, boset)
+                    bg = [] if rng.random() < 0.5 else [rng.choice(seed)]
+                    mode = rng.choice(('i', 'gi', 'n'))
+                    bo = boset
+                    if boset is not None:
+                        r = rng.random()
+                        if r < 0.35:         # H7 on top: length == n_objects, members a proper subset
+                            pad = boset + [rng.choice(boset) for _ in range(n - len(boset))]
+                            bo = rng.sample(pad, len(pad)) if rng.random() < 0.5 else pad
+                        elif r < 0.5:
+                            bo = boset[::-1]
+                    il = intent if rng.random() < 0.6 else rng.sample(intent, len(intent))
+                    cont = ['list', 'list', 'list'] if rng.random() < 0.6 else \
+                        [rng.choice(('list', 'tuple', 'set', 'frozenset')) for _ in range(3)]
+                    yield _fc(stream, be, rows, mode, il, bg, bo, objs=objs, attrs=attrs, cont=cont)
+
+
+# ------------------------------------------------------------------ class H4: hash-preserving edits (formal contexts)
+# `FormalContext.hash_fixed` = adler32(str(object_names) + str(attribute_names) + str(table)); (+1, -2, +1) on three
+# consecutive characters keeps adler32 wherever the name stands, so 'bdb' <-> 'cbc', 'dfd' <-> 'ede', 'hjh' <-> 'ihi',
+# 'kmk' <-> 'lkl' may be exchanged, or swapped inside a name list, without changing the fingerprint.
+A4 = ['bdb', G.adler_collide_name('bdb'), 'dfd', 'x1', 'y2']
+O4 = ['hjh', G.adler_collide_name('hjh'), 'kmk', 'u1', 'v2']
+assert A4[1] == 'cbc' and O4[1] == 'ihi' and G.adler_collide_name('dfd') == 'ede'
+
+
+def _fixed_text(objs, attrs, rows):
+    """the text hash_fixed hashes (the names are kept as tuples by the setters)"""
+    return str(tuple(objs)) + str(tuple(attrs)) + str([[bool(v) for v in r] for r in rows])
+
+
+def _adler(objs, attrs, rows):
+    import zlib
+    return zlib.adler32(_fixed_text(objs, attrs, rows).encode())
+
+
+_PARTNER = {}
+
+
+def _adler_partner_rows(objs, attrs, rows):
+    """a DIFFERENT table of the same shape with the same hash_fixed (same names); None if there is none / too large"""
+    n, m = len(rows), len(rows[0])
+    if n * m > 12:
+        return None
+    k = (tuple(objs), tuple(attrs), n, m)
+    if k not in _PARTNER:
+        groups = {}
+        for t in G.all_tables(n, m):
+            groups.setdefault(_adler(objs, attrs, t), []).append(t)
+        _PARTNER[k] = groups
+    grp = _PARTNER[k][_adler(objs, attrs, rows)]
+    cur = [list(r) for r in rows]
+    others = [t for t in grp if t != cur]
+    if not others:
+        return None
+    # the partner that differs in most cells (most likely to change the answers)
+    return max(others, key=lambda t: sum(a != b for ra, rb in zip(t, cur) for a, b in zip(ra, rb)))
+
+
+def _h4_formal(rows, be, stream, rng, sample=None):
+    n, m = len(rows), len(rows[0])
+    objs, attrs = O4[:n], A4[:m]
+    combos = []
+    for intent in _subsets(m):
+        for bg in ([], intent[:1]):
+            if bg and not intent:
+                continue
+            for bo in (None, sorted(rng.sample(range(n), rng.randint(0, n)))):
+                combos.append((intent, bg, bo))
+    if sample is not None and len(combos) > sample:
+        combos = rng.sample(combos, sample)
+    for intent, bg, bo in combos:
+        ni, nb = [attrs[i] for i in intent], [attrs[i] for i in bg]
+        no = None if bo is None else [objs[g] for g in bo]
+        kinds = rng.choice((['list'] * 3, ['tuple', 'list', 'set'], ['frozenset', 'tuple', 'list']))
+        qn = _q('n', ni, nb if nb or rng.random() < 0.5 else None, no, kinds)
+        qi = _q(rng.choice(('i', 'gi')), intent, bg, bo, kinds)
+        same = lambda q: dict(q, same=True)
+        if m >= 2:      # the two partner names change places: the same names now denote other columns
+            new = [attrs[1], attrs[0]] + attrs[2:]
+            assert new != attrs and _adler(objs, new, rows) == _adler(objs, attrs, rows)
+            yield _hist(stream, be, rows, objs, attrs, [qn, dict(op='attrs', names=new, h4='adler'), same(qn), qn, qi])
+        # one name replaced by its partner: the old name is unknown afterwards
+        ren = ['cbc' if a == 'bdb' else a for a in attrs] if m < 2 else attrs[:2] + ['ede' if a == 'dfd' else a for a in attrs[2:]]
+        if ren != attrs:
+            assert _adler(objs, ren, rows) == _adler(objs, attrs, rows)
+            qn2 = _q('n', [ren[i] for i in intent], [ren[i] for i in bg], no, kinds)
+            yield _hist(stream, be, rows, objs, attrs, [qn, qn2, dict(op='attrs', names=ren, h4='adler'), same(qn), same(qn2), qn])
+        if n >= 2 and bo is not None:
+            new = [objs[1], objs[0]] + objs[2:]
+            assert _adler(new, attrs, rows) == _adler(objs, attrs, rows)
+            yield _hist(stream, be, rows, objs, attrs, [qn, dict(op='objs', names=new, h4='adler'), same(qn), qn])
+        other = _adler_partner_rows(objs, attrs, rows)
+        if other is not None:
+            assert other != [list(r) for r in rows] and _adler(objs, attrs, other) == _adler(objs, attrs, rows)
+            yield _hist(stream, be, rows, objs, attrs,
+                        [qi, qn, dict(op='data', rows=other, h4='adler'), same(qi), same(qn), qi, qn])
+
+
+# ------------------------------------------------------------------ many-valued: classes H7, H4, H8
+def _mv_one(stream, cols, q, np_on):
+    c = _mvhist(stream, cols, [q], numpy_on=np_on)
+    return c if _mvhist_in_scope(c) else None
+
+
+def _mv_h7_cases(cols, stream, rng, sample=None):
+    """base objects / ps_to_iterate as H7 lists.  By name and on the branch without numpy every spelling of a member
+    set containing the extent is answered (the routine re-builds the index list / a frozenset); on the numpy branch the
+    list is iterated as given, so only spellings that list the extent once and in ascending order are in scope
+    (repetitions and disorder among the other objects - in particular lists of length n_objects missing an object)."""
+    n, k = len(cols[0]), len(cols)
+    psn, objs = [f'p{j}' for j in range(k)], _objn(n)
+    subs = [x for x in _subsets(n) if x]
+    if sample is not None and len(subs) > 4:
+        subs = rng.sample(subs, 4)
+    for iobjs in subs:
+        intent = _mv_int(cols, iobjs)
+        ext = _mv_ext(cols, intent, range(n))
+        rest = [g for g in range(n) if g not in ext]
+        adds = [list(a) for r in range(len(rest) + 1) for a in itertools.combinations(rest, r)]
+        if sample is not None and len(adds) > sample:
+            adds = rng.sample(adds, sample)
+        nint = {psn[j]: d for j, d in enumerate(intent)}
+        for add in adds:
+            M = sorted(ext + add)
+            forms = _h7_variants(M, n, rng)
+            if len(forms) > 3:
+                forms = rng.sample(forms, 3)
+            bgspec = None if rng.random() < 0.7 else [[rng.randrange(k), rng.choice('LR')]]
+            nbg = None if not bgspec else [[psn[j], sd] for j, sd in bgspec]
+            for f in forms:
+                cont = rng.choice(('list', 'list', 'set', 'samelist'))
+                yield _mv_one(stream, cols, _mvq('n', nint, [objs[g] for g in f], nbg, cont), rng.random() < 0.6)
+                yield _mv_one(stream, cols, _mvq('i', intent, f, bgspec, 'list'), False)
+            # numpy branch: the extent once and ascending, anything among the other objects
+            npf = []
+            if add:
+                x = rng.choice(add)
+                npf.append(sorted(M + [x] * max(1, n - len(M))))            # length >= n_objects, a proper subset (if M is)
+                npf.append([x] + [g for g in M if g != x] + [x])
+                y = rng.choice(add)
+                npf.append([g for g in M if g not in add] + add[::-1] + [y])    # the other objects unsorted / repeated
+            for f in npf:
+                yield _mv_one(stream, cols, _mvq('i', intent, f, bgspec, 'list'), True)
+        # ps_to_iterate: permutations, repetitions, longer than the number of pattern structures, sufficient subsets
+        full = list(range(k))
+        pforms = [full[::-1], full + [full[0]], [j for j in full for _ in (0, 1)], rng.sample(full + full, 2 * k)]
+        pforms += [[j] for j in full] + [[j, j] for j in full]
+        if k > 2:
+            pforms += [rng.sample(full, k - 1)]
+        seen = []
+        for pf in pforms:
+            if pf in seen or pf == full:
+                continue
+            seen.append(pf)
+            bo = None if rng.random() < 0.5 else sorted(ext + rng.sample(rest, rng.randint(0, len(rest))))
+            np_on = rng.random() < 0.6
+            yield _mv_one(stream, cols, _mvq('i', intent, bo, None, 'list', psit=pf), np_on)
+            yield _mv_one(stream, cols, _mvq('n', nint, None if bo is None else [objs[g] for g in bo], None, 'list',
+                                           psit=[psn[j] for j in pf]), np_on)
+
+
+# value pairs a fingerprint cannot tell apart: CPython hash(-1.0) == hash(-2.0), hash(1.0) == hash(2.0 ** 61) (floats hash
+# modulo 2**61 - 1), and '131.0' / '212.0' are adler32-neutral (+1, -2, +1 on three consecutive characters)
+_H4_PAIRS = (('pyhash', -1, G.pyhash_collide_value(-1), 3), ('pyhash', 1, 2 ** 61, 7), ('adler', 131, 212, 150))
+assert _H4_PAIRS[0][2] == -2 and hash(-1.0) == hash(-2.0) and hash(1.0) == hash(2.0 ** 61)
+
+
+def _mv_text(objs, psn, cols):
+    n = len(cols[0])
+    return str(list(objs)) + str(list(psn)) + str([[(float(c[g][0]), float(c[g][1])) for c in cols] for g in range(n)])
+
+
+def _mv_fp(kind, objs, psn, cols):
+    if kind == 'adler':
+        import zlib
+        return zlib.adler32(_mv_text(objs, psn, cols).encode())
+    return tuple(hash(tuple((float(a), float(b)) for a, b in col)) for col in cols)
+
+
+def _mv_h4_cases(stream, rng, quick=True):
+    """query -> an edit of one column that changes cells only between two values a fingerprint cannot tell apart ->
+    the same query (same argument objects, then fresh ones); through ps.data = , pattern_structures[j] = ,
+    pattern_structures = """
+    turn = 0
+    for kind, a, b, z in _H4_PAIRS:
+        flip = {a: b, b: a}
+        for col0 in itertools.product((a, b, z), repeat=3):
+            pos = [g for g, v in enumerate(col0) if v in flip]
+            if not pos:
+                continue
+            for col1 in (None, [9, 1, 2]):
+                cols = [[[v, v] for v in col0]] + ([[[v, v] for v in col1]] if col1 else [])
+                k, n = len(cols), 3
+                psn, objs = [f'p{j}' for j in range(k)], _objn(n)
+                flipsets = [pos, pos[:1]] + ([pos[-1:]] if len(pos) > 1 else [])
+                for fs in flipsets:
+                    newcol = [[flip[v], flip[v]] if g in fs else [v, v] for g, v in enumerate(col0)]
+                    newcols = [newcol] + cols[1:]
+                    assert newcols != cols and _mv_fp(kind, objs, psn, newcols) == _mv_fp(kind, objs, psn, cols)
+                    for iobjs in _subsets(n):
+                        if not iobjs:
+                            continue
+                        intent = _mv_int(cols, iobjs)
+                        ext = _mv_ext(cols, intent, range(n))
+                        rest = [g for g in range(n) if g not in ext]
+                        bo = None if rng.random() < 0.6 else sorted(ext + rng.sample(rest, rng.randint(0, len(rest))))
+                        bgspec = None if rng.random() < 0.75 else [[rng.randrange(k), rng.choice('LR')]]
+                        turn += 1
+                        mu = dict(op=('psdata', 'psdata', 'setps', 'newps')[turn % 4], j=0, col=newcol, h4=kind)
+                        qi = _mvq('i', intent, bo, bgspec, 'list')
+                        qn = _mvq('n', {psn[j]: d for j, d in enumerate(intent)}, None if bo is None else [objs[g] for g in bo],
+                                  None if not bgspec else [[psn[j], sd] for j, sd in bgspec], rng.choice(('list', 'set')))
+                        for steps in ([qi, mu, dict(qi, same=True), qi], [qn, mu, dict(qn, same=True), qn]):
+                            c = _mvhist(stream, cols, steps, numpy_on=rng.random() < 0.7)
+                            if _mvhist_in_scope(c):
+                                yield c
+
+
+def _mv_h8_cases(stream, rng, quick=True):
+    """64 / 65 objects (the last object decides), 65 pattern structures (the last one decides)"""
+    for n in ((64, 65) if quick else (64, 65, 128, 129)):
+        for k in (1, 2):
+            cols = [[[v, v] for v in (rng.randint(0, 4) for _ in range(n))] for _ in range(k)]
+            cols[0][n - 1] = [9, 9]                      # only the last object reaches 9 in column 0
+            cols[0][n - 2] = [8, 8]
+            psn, objs = [f'p{j}' for j in range(k)], _objn(n)
+            picks = [[n - 1], [n - 2, n - 1], [0, n - 1], [n - 2], sorted(rng.sample(range(n), 3))]
+            for iobjs in picks:
+                intent = _mv_int(cols, iobjs)
+                ext = _mv_ext(cols, intent, range(n))
+                rest = [g for g in range(n) if g not in ext]
+                nint = {psn[j]: d for j, d in enumerate(intent)}
+                # without numpy the base objects become a frozenset whose order is not ascending from 9 objects on: the loop
+                # then never ends (reported); only base_objects=None is in scope there
+                for np_on, bo in ((True, None), (False, None), (True, sorted(ext + rng.sample(rest, len(rest) // 2))),
+                                  (True, sorted(ext + rest[:1] * (n - len(ext))) if rest else None)):
+                    yield _mv_one(stream, cols, _mvq('i', intent, bo, None, 'list'), np_on)
+                    yield _mv_one(stream, cols, _mvq('n', nint, None if bo is None else [objs[g] for g in bo], None, 'list'),
+                                  np_on)
+    for k in (64, 65):
+        n = 4
+        cols = [[[1, 1]] * n for _ in range(k)]
+        cols[0] = [[0, 0], [1, 1], [2, 2], [3, 3]]
+        cols[k - 1] = [[5, 5], [1, 1], [2, 2], [0, 0]]
+        cols[k - 2] = [[0, 0], [0, 0], [1, 1], [1, 1]]
+        psn, objs = [f'p{j}' for j in range(k)], _objn(n)
+        for iobjs in ([1, 2], [2, 3], [0], [3], [0, 1, 2]):
+            intent = _mv_int(cols, iobjs)
+            nint = {psn[j]: d for j, d in enumerate(intent)}
+            full = list(range(k))
+            for psit in (None, full[::-1], [k - 1, 0], [k - 1, k - 1, 0, k - 2]):
+                np_on = rng.random() < 0.6
+                yield _mv_one(stream, cols, _mvq('i', intent, None, None, 'list', psit=psit), np_on)
+                yield _mv_one(stream, cols, _mvq('n', nint, None, None, 'list',
+                                               psit=None if psit is None else [psn[j] for j in psit]), np_on)
